@@ -227,26 +227,40 @@ func (s *RegionSyncer) syncHistoryRegion(request *pdpb.SyncRegionRequest, stream
 		zap.Uint64("from-index", startIndex),
 		zap.Uint64("last-index", s.history.GetNextIndex()),
 		zap.Int("records-length", len(records)))
-	regions := make([]*metapb.Region, len(records))
-	stats := make([]*pdpb.RegionStat, len(records))
-	leaders := make([]*metapb.Peer, len(records))
-	for i, r := range records {
-		regions[i] = r.GetMeta()
-		stats[i] = r.GetStat()
-		leader := &metapb.Peer{}
-		if r.GetLeader() != nil {
-			leader = r.GetLeader()
+	// Send the records in batches like the full synchronization does: one response carrying
+	// everything from startIndex on can exceed the message size limit of the client (msgSize),
+	// which then fails to receive it, asks for the same index again and never catches up.
+	for len(records) > 0 {
+		n := len(records)
+		if n > maxSyncRegionBatchSize {
+			n = maxSyncRegionBatchSize
 		}
-		leaders[i] = leader
+		regions := make([]*metapb.Region, n)
+		stats := make([]*pdpb.RegionStat, n)
+		leaders := make([]*metapb.Peer, n)
+		for i, r := range records[:n] {
+			regions[i] = r.GetMeta()
+			stats[i] = r.GetStat()
+			leader := &metapb.Peer{}
+			if r.GetLeader() != nil {
+				leader = r.GetLeader()
+			}
+			leaders[i] = leader
+		}
+		resp := &pdpb.SyncRegionResponse{
+			Header:        &pdpb.ResponseHeader{ClusterId: s.server.ClusterID()},
+			Regions:       regions,
+			StartIndex:    startIndex,
+			RegionStats:   stats,
+			RegionLeaders: leaders,
+		}
+		if err := stream.Send(resp); err != nil {
+			return err
+		}
+		startIndex += uint64(n)
+		records = records[n:]
 	}
-	resp := &pdpb.SyncRegionResponse{
-		Header:        &pdpb.ResponseHeader{ClusterId: s.server.ClusterID()},
-		Regions:       regions,
-		StartIndex:    startIndex,
-		RegionStats:   stats,
-		RegionLeaders: leaders,
-	}
-	return stream.Send(resp)
+	return nil
 }
 
 // bindStream binds the established server stream.
